@@ -851,6 +851,7 @@ func runCorpus(run *hx.Run) {
 
 func main() {
 	flag.Int("only-mig", -1, "section E: regenerate only this migration case")
+	flag.Int("only-migchk", -1, "section G: run only this rule-selection migration case")
 	run := hx.Start("C16")
 	r := hx.NewRand(run.Seed)
 	t0 := time.Now()
@@ -859,22 +860,45 @@ func main() {
 		fmt.Fprintf(os.Stderr, "%s %.1fs\n", name, time.Since(t0).Seconds())
 		t0 = time.Now()
 	}
-	runCorpus(run)
-	section("runCorpus")
-	runYAML(run, r.Fork(1), run.N(4000, 40000))
-	section("runYAML")
-	runPluginFamily(run, r.Fork(7))
-	section("runPluginFamily")
-	runWork(run, r.Fork(2), run.N(600, 8000))
-	section("runWork")
-	runLock(run, r.Fork(3), run.N(800, 10000))
-	section("runLock")
-	runGen(run, r.Fork(4), run.N(1500, 20000))
-	section("runGen")
-	runMigWs(run, r.Fork(6), run.N(80, 300))
-	section("runMigWs")
-	runMigrations(run, r.Fork(5), run.N(60, 500))
-	section("runMigrations")
+	// C16_SECTIONS (development aid): run only the named sections, e.g. C16_SECTIONS=G.
+	want := func(name string) bool {
+		s := os.Getenv("C16_SECTIONS")
+		return s == "" || strings.Contains(s, name)
+	}
+	if want("0") {
+		runCorpus(run)
+		section("runCorpus")
+	}
+	if want("A") {
+		runYAML(run, r.Fork(1), run.N(4000, 40000))
+		section("runYAML")
+		runPluginFamily(run, r.Fork(7))
+		section("runPluginFamily")
+	}
+	if want("B") {
+		runWork(run, r.Fork(2), run.N(600, 8000))
+		section("runWork")
+	}
+	if want("C") {
+		runLock(run, r.Fork(3), run.N(800, 10000))
+		section("runLock")
+	}
+	if want("D") {
+		runGen(run, r.Fork(4), run.N(1500, 20000))
+		section("runGen")
+	}
+	if want("F") {
+		runMigWs(run, r.Fork(6), run.N(80, 300))
+		section("runMigWs")
+	}
+	if want("G") {
+		runMigChk(run, r.Fork(8), run.N(150, 2000))
+		section("runMigChk")
+	}
+	if want("E") {
+		runMigrations(run, r.Fork(5), run.N(60, 500))
+		section("runMigrations")
+	}
 	run.Finish()
 }
 
